@@ -1,0 +1,47 @@
+//go:build verif
+
+// Contracts for package token (comment-only; read by /verif/plvc).
+
+package token
+
+//@ spec lineIndex(ls []int, q string) bool = len(ls) >= 1 && ls[0] == 0
+//@ | && (forall j, k :: 0 <= j && j < k && k < len(ls) ==> ls[j] < ls[k])
+//@ | && (forall k :: 1 <= k && k < len(ls) ==> 1 <= ls[k] && ls[k] <= len(q) && q[ls[k]-1] == 10)
+//@ | && (forall j :: 0 <= j && j < len(q) && q[j] == 10 ==> (exists k :: 1 <= k && k < len(ls) && ls[k] == j+1))
+
+//@ spec lineIndexUpTo(ls []int, q string, p int) bool = len(ls) >= 1 && ls[0] == 0
+//@ | && (forall j, k :: 0 <= j && j < k && k < len(ls) ==> ls[j] < ls[k])
+//@ | && (forall k :: 1 <= k && k < len(ls) ==> 1 <= ls[k] && ls[k] <= p && q[ls[k]-1] == 10)
+//@ | && (forall j :: 0 <= j && j < p && q[j] == 10 ==> (exists k :: 1 <= k && k < len(ls) && ls[k] == j+1))
+
+//@ struct PosCache
+//@ props C17
+//@ invariant lineIndex(self.lineStartPos, self.query)
+
+//@ func NewPosCache
+//@ props C17
+//@ ensures result != nil && fresh(result)
+//@ ensures result.query == query
+//@ ensures lineIndex(result.lineStartPos, query)
+//@ loop 1
+//@ invariant 0 <= iterpos() && iterpos() <= len(query)
+//@ invariant cache.query == query
+//@ invariant lineIndexUpTo(cache.lineStartPos, query, iterpos())
+
+//@ func (*PosCache).LnCol
+//@ props C17
+//@ requires c != nil
+//@ ensures (pos < 0 || int(pos) > len(c.query)) ==> result == InvalidLnColPos
+//@ ensures 0 <= pos && int(pos) <= len(c.query) ==> result.Pos == pos
+//@ ensures 0 <= pos && int(pos) <= len(c.query) ==> 1 <= result.Ln && result.Ln <= len(c.lineStartPos)
+//@ ensures 0 <= pos && int(pos) <= len(c.query) ==> c.lineStartPos[result.Ln-1] <= int(pos)
+//@ ensures 0 <= pos && int(pos) <= len(c.query) ==> (result.Ln == len(c.lineStartPos) || int(pos) < c.lineStartPos[result.Ln])
+//@ ensures 0 <= pos && int(pos) <= len(c.query) ==> result.Col == int(pos) - c.lineStartPos[result.Ln-1] + 1
+//@ loop 1
+//@ invariant 0 <= start && start <= end && end <= len(c.lineStartPos)
+//@ invariant ln == -1 || (0 <= ln && ln < len(c.lineStartPos))
+//@ invariant ln == -1 ==> start < len(c.lineStartPos) && c.lineStartPos[start] <= int(pos)
+//@ invariant ln == -1 ==> end == len(c.lineStartPos) || int(pos) < c.lineStartPos[end]
+//@ invariant ln != -1 ==> c.lineStartPos[ln] <= int(pos) && (ln == len(c.lineStartPos)-1 || int(pos) < c.lineStartPos[ln+1])
+//@ invariant 0 <= pos && int(pos) <= len(c.query)
+//@ decreases end - start
